@@ -24,16 +24,16 @@ const ModPath = "github.com/ipfs/ipfs-cluster"
 // Program is everything the rules look at: the type-checked syntax of all
 // packages, the SSA form of the whole program and the VTA call graph.
 type Program struct {
-	Fset     *token.FileSet
-	All      map[string]*packages.Package // every package, by path
-	Repo     []*packages.Package          // packages of the repository, sorted by path
-	SSA      *ssa.Program
-	CG       *callgraph.Graph
-	DepErrs  []string // type errors outside the repository (tolerated, recorded)
-	Timings  map[string]float64
-	NumFuncs int // repository functions with SSA bodies
-	WithCG   bool
-	Renames  []Rename // unexported identifiers spelled back to their reference names (see rename.go)
+	Fset       *token.FileSet
+	All        map[string]*packages.Package // every package, by path
+	Repo       []*packages.Package          // packages of the repository, sorted by path
+	SSA        *ssa.Program
+	CG         *callgraph.Graph
+	DepErrs    []string // type errors outside the repository (tolerated, recorded)
+	Timings    map[string]float64
+	NumFuncs   int // repository functions with SSA bodies
+	WithCG     bool
+	Renames    []Rename // unexported identifiers spelled back to their reference names (see rename.go)
 	RenameNote string
 }
 
@@ -214,6 +214,7 @@ var singleCallSite = map[*ssa.Function]ssa.CallInstruction{}
 func buildParamAlias(p *Program) {
 	paramAlias = map[*ssa.Parameter]ssa.Value{}
 	singleCallSite = map[*ssa.Function]ssa.CallInstruction{}
+	derivedMemo = map[derivedKey][]Guard{}
 	if p.CG == nil {
 		return
 	}
